@@ -399,6 +399,13 @@ def r06m(ctx, run):
     c09.r09m(ctx, run)
 
 
+def r06n(ctx, run):
+    """weak-type replacement gives the operands of an operator only a type the operator can be performed on, or reports it: otherwise
+    `x : f32 = 7 % 2;` reaches unreachable!() in compile_num_binary (shared with C07 R07.n)"""
+    import c07
+    c07.r07n(ctx, run)
+
+
 def r06f(ctx, run):
     """input_snippet is total: evaluated from its source for every shape of (file length, first line, span, lines after the span) that its
     arithmetic distinguishes and for every pair of columns a position can have (0 ..= line length: the position of the newline / end of
@@ -572,6 +579,7 @@ def rules(ctx):
         Rule("R06.k", "every == / != the checker accepts on aggregates is built (shared with C07 R07.i)", 60, r06k),
         Rule("R06.l", "an argument passed in memory gets a whole number of eightbytes (Cranelift asserts it); fn_ty_to_abi evaluated (shared with C19 R19.e)", 10, r06l),
         Rule("R06.m", "weak-type replacement through a dereference keeps the pointer's mutability (re-inference panics otherwise; shared with C09 R09.m)", 6, r06m),
+        Rule("R06.n", "weak-type replacement never gives an operator operands of a type it cannot be performed on without reporting it (shared with C07 R07.n)", 20, r06n),
         Rule("R06.h", "variants of one enum get pairwise distinct discriminants (a duplicate panics Cranelift's Switch; shared with C11 R11.d)", 1, r06h),
         Rule("R06.g", "a data object is defined once: fresh name or memoised creation at every create_global_data site", 4, r06g),
         Rule("R06.f", "the snippet renderer is total: no unsigned subtraction below zero and no slice beyond a line, for every range shape and column (newline position included)", 1, r06f),
